@@ -565,10 +565,6 @@ def run_blind(case):
     start_xpub = rstart.ser(v, False)
     sp = R.format_path(start, *case["start_style"])
     xp = R.format_path(secret, case["secret_prefix"], "'")
-    if case["secret_prefix"] != "m":
-        st = f"secret-prefix={case['secret_prefix']}"
-    else:
-        st = f"start-style={case['start_style'][0]}{case['start_style'][1] if any(i >= HARD for i in start) else ''}"
     key = (case["sn"], case["version"], tuple(start), tuple(secret), sp, xp)
     got = attempt(blind_xpub, start_xpub, sp, xp)
     if hardened:
@@ -578,6 +574,15 @@ def run_blind(case):
             res.violation("C08/blind/hardened-secret-accepted", vc, got, "refusal", "blind_xpub derived a hardened child from a public key")
         return res
     if isinstance(got, Rejected) or not isinstance(got, dict):
+        # name the narrowest responsible input class: the plain notation first, then one notation change at a time
+        plain_s, plain_x = R.format_path(start), R.format_path(secret)
+        big = idx_name(max(start + secret))
+        if isinstance(attempt(blind_xpub, start_xpub, plain_s, plain_x), (Rejected, type(None))):
+            st = f"plain-notation/max-index={big}"
+        elif xp != plain_x and isinstance(attempt(blind_xpub, start_xpub, plain_s, xp), (Rejected, type(None))):
+            st = f"secret-prefix={case['secret_prefix']}"
+        else:
+            st = f"start-style={case['start_style'][0]}{case['start_style'][1] if any(i >= HARD for i in start) else ''}"
         res.violation(f"C08/blind/rejected/{st}", vc, {"start_path": sp, "secret_path": xp, "result": repr(got)}, "blinded key", "blind_xpub refuses valid paths")
         return res
     want_x = rfull.ser(v, False)
